@@ -15,8 +15,9 @@ package vault
 // The property's predicate is evaluated here on the real core's answers (marker `!VIOL:` on `state` lines).
 
 import (
-	"fmt"
+	"context"
 	"encoding/json"
+	"fmt"
 	"sort"
 	"strconv"
 	"strings"
@@ -25,6 +26,9 @@ import (
 
 	"github.com/openbao/openbao/sdk/v2/helper/salt"
 	"github.com/openbao/openbao/sdk/v2/logical"
+	"github.com/openbao/openbao/v2/internal/helper/namespace"
+	"github.com/openbao/openbao/v2/internal/vault/barrier"
+	"github.com/openbao/openbao/v2/internal/vault/routing"
 	"github.com/openbao/openbao/v2/internal/zzverif/vh"
 )
 
@@ -1025,6 +1029,7 @@ func TestVerifC04Seq(t *testing.T) {
 		nCases = vh.EnvInt("VERIF_C04_SEQ", 600)
 	}
 	c04NsCases(t, out)
+	c04NsCases2(t, out)
 	w := c04NewWorld(t, out)
 	for ci := 0; ci < nCases; ci++ {
 		cr := rng.Fork(uint64(ci))
@@ -1229,6 +1234,97 @@ path "auth/token/*" { capabilities = ["create", "update", "read"] }`}); cl != "o
 			viol = "!C04V:the token was revoked (" + how + ") but the lease it obtained in a child namespace is still live at its backend#ns:lease-in-child-namespace-survives"
 		}
 		out.Op(fmt.Sprintf("%s|%s|leases:%d/%d%s", rcl, state, issued, revoked, viol), "nscase", how)
+		_ = c.Shutdown()
+	}
+}
+
+// c04NsCases2: two more cross-namespace cases. cubby: a root-namespace token writes into ITS cubbyhole through the
+// cubbyhole mount of a child namespace (the router serves it there under the token's CubbyholeID); after the revocation
+// nothing of it may be left in either mount. tidy: a parent token P of the root namespace with a non-orphaned child C
+// created through c04ns/auth/token/create; auth/token/tidy runs in the root namespace; revoking P must still take C down.
+func c04NsCases2(t *testing.T, out *vh.Out) {
+	{
+		p := vhNewPhys(t)
+		c, _, root := vhNewCore(t, p, nil, nil)
+		if cl, _ := vhReq(c, logical.UpdateOperation, "sys/namespaces/c04ns", root, nil); cl != "ok" {
+			t.Fatalf("namespace: %s", cl)
+		}
+		if cl, _ := vhReq(c, logical.UpdateOperation, "sys/policy/c04cub", root, map[string]any{"policy": `
+path "c04ns/cubbyhole/*" { capabilities = ["create", "update", "read", "list"] }
+path "cubbyhole/*" { capabilities = ["create", "update", "read", "list"] }`}); cl != "ok" {
+			t.Fatalf("policy: %s", cl)
+		}
+		tok := vhCreateToken(t, c, root, map[string]any{"ttl": "1h", "policies": []string{"c04cub"}})
+		w1, _ := vhReq(c, logical.UpdateOperation, "cubbyhole/a", tok, map[string]any{"v": "root-ns"})
+		w2, _ := vhReq(c, logical.UpdateOperation, "c04ns/cubbyhole/b", tok, map[string]any{"v": "child-ns"})
+		if w1 != "ok" || w2 != "ok" {
+			t.Fatalf("cubbyhole writes: %s %s", w1, w2)
+		}
+		nsEntry, err := c.namespaceStore.GetNamespaceByPath(vhRootCtx(), "c04ns/")
+		if err != nil || nsEntry == nil {
+			t.Fatalf("namespace lookup: %v", err)
+		}
+		count := func(ns *namespace.Namespace) int {
+			ctx := namespace.ContextWithNamespace(context.Background(), ns)
+			view, ok := c.router.MatchingStorageByAPIPath(ctx, routing.MountPathCubbyhole).(barrier.View)
+			if !ok {
+				return -1
+			}
+			keys, err := logical.CollectKeys(ctx, view)
+			if err != nil {
+				return -1
+			}
+			return len(keys)
+		}
+		out.Reset()
+		rcl, _ := vhReq(c, logical.UpdateOperation, "auth/token/revoke", root, map[string]any{"token": tok})
+		state := "alive"
+		for i := 0; i < 400; i++ {
+			if lcl, _ := vhReq(c, logical.ReadOperation, "auth/token/lookup-self", tok, nil); lcl != "ok" {
+				state = "dead"
+				break
+			}
+			time.Sleep(5 * time.Millisecond)
+		}
+		nr, nc := count(namespace.RootNamespace), count(nsEntry)
+		viol := ""
+		if state == "dead" && (nr != 0 || nc != 0) {
+			viol = fmt.Sprintf("!C04V:the token was revoked but cubbyhole data it wrote is still stored (root mount: %d keys, child namespace mount: %d keys)#ns:cubbyhole-in-child-namespace-survives", nr, nc)
+		}
+		out.Op(fmt.Sprintf("%s|%s|cubby:%d/%d%s", rcl, state, nr, nc, viol), "nscase", "cubby-in-child")
+		_ = c.Shutdown()
+	}
+	{
+		p := vhNewPhys(t)
+		c, _, root := vhNewCore(t, p, nil, nil)
+		if cl, _ := vhReq(c, logical.UpdateOperation, "sys/namespaces/c04ns", root, nil); cl != "ok" {
+			t.Fatalf("namespace: %s", cl)
+		}
+		par := vhCreateToken(t, c, root, map[string]any{"ttl": "2h", "policies": []string{"root"}})
+		cl, resp := vhReq(c, logical.UpdateOperation, "c04ns/auth/token/create", par, map[string]any{"ttl": "1h", "policies": []string{"default"}})
+		if cl != "ok" || resp == nil || resp.Auth == nil || resp.Auth.Orphan {
+			t.Fatalf("child in namespace: %s", cl)
+		}
+		child := resp.Auth.ClientToken
+		out.Reset()
+		tcl, _ := vhReq(c, logical.UpdateOperation, "auth/token/tidy", root, nil)
+		time.Sleep(100 * time.Millisecond)
+		c.tokenStore.tidyLock.Lock()
+		c.tokenStore.tidyLock.Unlock() //nolint:staticcheck
+		rcl, _ := vhReq(c, logical.UpdateOperation, "auth/token/revoke", root, map[string]any{"token": par})
+		state := "alive"
+		for i := 0; i < 400; i++ {
+			if lcl, _ := vhReq(c, logical.ReadOperation, "c04ns/auth/token/lookup-self", child, nil); lcl != "ok" {
+				state = "dead"
+				break
+			}
+			time.Sleep(5 * time.Millisecond)
+		}
+		viol := ""
+		if rcl == "ok" && state != "dead" {
+			viol = "!C04V:the parent token was revoked (tree) after auth/token/tidy ran, but its non-orphaned child in a child namespace is still accepted#ns:tidy-dropped-cross-namespace-parent-index"
+		}
+		out.Op(fmt.Sprintf("%s|%s|child:%s%s", tcl, rcl, state, viol), "nscase", "tidy-child")
 		_ = c.Shutdown()
 	}
 }
